@@ -163,9 +163,6 @@ func init() {
 		var a, b, c2, d []sched.Item
 		for ffpos := 20; ffpos <= 100; ffpos += stride {
 			for server := 0; server <= 3; server++ {
-				if !th && server > 1 {
-					continue
-				}
 				a = append(a, item(fmt.Sprintf("ffjoin:3:5:110:%d:%d:0", ffpos, server)))
 			}
 			b = append(b, item(fmt.Sprintf("ffjoin:3:5:110:%d:0:1", ffpos)))
@@ -212,11 +209,16 @@ func init() {
 			}
 		}
 		add("a second joiner (4->5) fast-forwards from the first joiner only, i.e. from a node that itself started from a frame (first fast-forward at p, second one 16/30/50 steps later, anchor index >= 1 / 4)", ch)
-		if th {
+		{
+			// single deviations of the schedule around a fast-forward (quick: every 9th / 12th position)
+			e1, e2 := 9, 12
+			if th {
+				e1, e2 = 2, 3
+			}
 			name := "ffjoin:3:5:110:44:0:0"
-			add("S3 d<=1 around the joiner fast-forward at p=44 (every 2nd position, level 0)", s3Items(name, 1, seedPositions(name, 10, 0, 2), devAlphabet(nodesOf(4), 0, 0), mons, 40))
+			add(fmt.Sprintf("S3 d<=1 around the joiner fast-forward at p=44 (every %d. position, level 0)", e1), s3Items(name, 1, seedPositions(name, 10, 0, e1), devAlphabet(nodesOf(4), 0, 0), mons, 40))
 			name = "ffjoin:3:5:110:60:0:1"
-			add("S3 d<=1 around fast-forward at p=60 + second join (every 3rd position, level 0)", s3Items(name, 1, seedPositions(name, 10, 0, 3), devAlphabet(nodesOf(4), 0, 0), mons, 40))
+			add(fmt.Sprintf("S3 d<=1 around fast-forward at p=60 + second join (every %d. position, level 0)", e2), s3Items(name, 1, seedPositions(name, 10, 0, e2), devAlphabet(nodesOf(4), 0, 0), mons, 40))
 		}
 		bud := 170 * time.Second
 		if th {
